@@ -15,6 +15,12 @@
 
 package iavl
 
+// Global invariants established by the package's variable initialisers and
+// never disturbed afterwards (the formatter objects are written only by their
+// constructor): node keys are 's' + 8-byte version + 4-byte nonce.
+//@ axiom [nodeKeyFormat] nodeKeyFormat != nil && nodeKeyFormat.length == 12 && nodeKeyFormat.prefix == 115 && len(nodeKeyFormat.prefixSlice) == 1 && at(nodeKeyFormat.prefixSlice, 0) == 115
+//@ axiom [nodeKeyPrefixFormat] nodeKeyPrefixFormat != nil && nodeKeyPrefixFormat.length == 8 && nodeKeyPrefixFormat.prefix == 115 && len(nodeKeyPrefixFormat.prefixSlice) == 1
+
 // ---------------------------------------------------------------- persistence boundary
 
 //@ func (*nodeDB).GetNode(ndb, nk) (res, err)
@@ -290,3 +296,37 @@ package iavl
 //@   requires all(i.stack, n, n != nil && n.nodeKey != nil)
 //@   ensures [inv] i.tree != nil ==> len(i.nonces) == old(len(i.nonces)) && i.version == old(i.version)
 //@   modifies *
+
+
+// ---------------------------------------------------------------- node keys (C13: pinned 12-byte big-endian layout)
+
+//@ func (*NodeKey).GetKey(nk) (b)
+//@   props C13 C12
+//@   requires nk != nil
+//@   ensures [layout] b != nil && fresh(b) && len(b) == 12
+//@   ensures [version] be64(row(b), b.off) == ite(nk.version >= 0, nk.version, nk.version + 18446744073709551616)
+//@   ensures [nonce] be32(row(b), b.off + 8) == nk.nonce
+
+//@ func GetRootKey(version) (b)
+//@   props C13 C12
+//@   ensures [layout] b != nil && fresh(b) && len(b) == 12
+//@   ensures [version] be64(row(b), b.off) == ite(version >= 0, version, version + 18446744073709551616)
+//@   ensures [nonce] be32(row(b), b.off + 8) == 1
+
+//@ func GetNodeKey(key) (nk)
+//@   props C13 C12
+//@   requires len(key) >= 12
+//@   ensures [fresh] nk != nil && fresh(nk)
+//@   ensures [version] nk.version == ite(be64(row(key), key.off) >= 9223372036854775808, be64(row(key), key.off) - 18446744073709551616, be64(row(key), key.off))
+//@   ensures [nonce] nk.nonce == be32(row(key), key.off + 8)
+
+// ---------------------------------------------------------------- reference-root reader (C13: total on arbitrary stored marker bytes)
+
+//@ func (*nodeDB).GetRoot(ndb, version) (key, err)
+//@   props C13 C14
+//@   requires ndb != nil && ndb.db != nil
+//@   modifies *
+
+//@ func (*nodeDB).legacyRootKey(ndb, version) (k)
+//@   assumed formats 'r' + 8-byte big-endian version through the generic keyformat.KeyFormat (variadic, reflection-like type switch: outside the verified subset)
+//@   ensures k != nil && len(k) == 9
